@@ -134,7 +134,7 @@ func TestZZHvBoundedC09(t *testing.T) {
 			}
 		}
 	}
-	fmt.Printf("HV-BOUNDED c09_illtyped files=%d evaluations=%d spellings=%d violations=%d\n", len(files), evals, len(hvC09Spellings), viol)
+	fmt.Printf("HV-BOUNDED evaluations=%d violations=%d bound=%q\n", evals, viol, fmt.Sprintf("every key = value line of the %d factory configurations x (%d value spellings of other TOML types + line deleted + line duplicated)", len(files), len(hvC09Spellings)))
 	if viol > 0 {
 		t.Fail()
 	}
